@@ -128,12 +128,14 @@ def replay(col, item):
     for d, Dm in enumerate(DS[m]):
         if not case["shell"][d] or fl(case["chi2"][d]) > 200:
             continue
-        for perm in perms[:2]:
+        # (also in units 2^20 times larger - numbers 2^20 times smaller, covariance entries around 1e-12: every chi-square
+        #  is unchanged, the correlations are as strong as before)
+        for perm, unit in ((perms[0], 1.0), (perms[1 % len(perms)], 1.0), (perms[0], 2.0 ** -20)):
             idx = list(perm)
             try:
-                b = BMCI(y[idx].copy(), x[idx].copy(), Dm.copy())
+                b = BMCI(y[idx].copy() * unit, x[idx].copy(), Dm.copy() * unit * unit)
                 with np.errstate(all="ignore"):
-                    mean, std = b.predict(yobs.copy())
+                    mean, std = b.predict(yobs.copy() * unit)
             except Exception as ex:
                 col.violation("predict-raises-%s-one-shell" % type(ex).__name__,
                               {"abstract": {"db": db, "y": case["y"], "D": Dm.tolist()}, "observed": repr(ex)[:200]})
@@ -145,7 +147,7 @@ def replay(col, item):
             if not close(mean[0], fl(exp["mean"]), 1e-9) or not close(std[0] ** 2, fl(exp["var"]), 1e-8):
                 col.violation("predict-unequal-weights-on-one-chi2-shell" + ("-correlated" if d in CORRELATED[m] else ""),
                               {"abstract": {"db": db, "y": case["y"], "D": Dm.tolist(), "chi2_of_every_entry": case["chi2"][d]},
-                               "concrete": {"permutation": idx}, "expected": [fl(exp["mean"]), fl(exp["var"])],
+                               "concrete": {"permutation": idx, "unit_scale": unit}, "expected": [fl(exp["mean"]), fl(exp["var"])],
                                "observed": [float(mean[0]), float(std[0] ** 2)]})
     # several observations in ONE call (rows of y_obs): the observation, one far outside the database, the observation
     # again - on one BMCI object, with an integer-typed database; every row is answered like a call of its own
